@@ -880,6 +880,22 @@ impl Exec {
     }
 
     async fn apply(&mut self, a: &Act) -> Result<(), String> {
+        // The counters evaluate their expirations lazily, from the clock, whenever a handler asks —
+        // also inside the handling of a PDU. The twin runs 1-2 ms behind the real transaction (and
+        // every step costs a millisecond), so a PDU handed over within a few ms of a timer's due
+        // time may find that timer expired on one side and not yet on the other: the comparison is
+        // ambiguous and the schedule is pruned, not judged.
+        if matches!(a, Act::Deliver(_) | Act::Dup(_) | Act::Burst | Act::Stray(_, _)) {
+            for t in &self.twins {
+                for side in [Side::S, Side::R] {
+                    if let Some(u) = t.world.until(side) {
+                        if u < Duration::from_millis(25) {
+                            return Err("AMBIGUOUS-TIMERS (a PDU arrives within the twin's lag of a timer's due time)".into());
+                        }
+                    }
+                }
+            }
+        }
         match a {
             Act::Put(k) => {
                 let spec = self.scn.txns[*k].clone();
